@@ -9,12 +9,12 @@ package gohbase
 // with no virtual time elapsed (deadline: exactly at the deadline).
 
 import (
-	"strconv"
-	"math/rand"
 	"context"
 	"errors"
 	"fmt"
+	"math/rand"
 	"os"
+	"strconv"
 	"strings"
 	"sync"
 	"testing"
@@ -318,8 +318,98 @@ func TestVerifC13(t *testing.T) {
 			}
 		}
 	}
-}
 
+	// ---- busy send queue with another caller waiting in front (REAL time, outside a bubble: a wait that is not a channel
+	// operation - a lock - would not let a bubble's clock run). The batcher is stuck in a write; a call with a live context
+	// waits for the queue; behind it the call in question waits too. Ending ITS context must end ITS wait, whoever else waits.
+	for _, entry := range []string{"get", "put", "batch-shared-ctx"} {
+		for _, kind := range kinds {
+			func() {
+				name := fmt.Sprintf("busy-send-queue-another-caller-waits-in-front/%s/%s", entry, kind)
+				tr := &verifsim.Trace{}
+				cl := verifsim.NewCluster(tr)
+				cl.AddServer("ms")
+				cl.AddServer("rs1")
+				cl.CreateTable("t", nil, []string{"rs1"})
+				release := make(chan struct{})
+				cl.ConnHook = func(op verifsim.Op) *verifsim.Fault {
+					if op.Kind == verifsim.OpWrite && strings.Contains(string(op.Data), "Multi") && strings.Contains(string(op.Data), "blocker") {
+						<-release
+					}
+					return nil
+				}
+				c := newSimClient(cl, RpcQueueSize(2))
+				g, _ := hrpc.NewGet(context.Background(), []byte("t"), []byte("warm"))
+				c.Get(g)
+				vals := map[string]map[string][]byte{"f": {"q": []byte("v")}}
+				bg := func(row string) {
+					go func() {
+						p, _ := hrpc.NewPut(context.Background(), []byte("t"), []byte(row), vals)
+						c.Put(p)
+					}()
+					time.Sleep(50 * time.Millisecond)
+				}
+				bg("blocker")  // its multi is held in the write
+				bg("in-front") // waits for the queue, with a context that stays live
+				var ctx context.Context
+				var cancel context.CancelFunc
+				if kind == "deadline" {
+					ctx, cancel = context.WithTimeout(context.Background(), 150*time.Millisecond)
+				} else {
+					ctx, cancel = context.WithCancel(context.Background())
+				}
+				defer cancel()
+				done := make(chan error, 1)
+				go func() {
+					var err error
+					switch entry {
+					case "get":
+						g, _ := hrpc.NewGet(ctx, []byte("t"), []byte("k1"))
+						_, err = c.Get(g)
+					case "put":
+						p, _ := hrpc.NewPut(ctx, []byte("t"), []byte("k1"), vals)
+						_, err = c.Put(p)
+					default:
+						p1, _ := hrpc.NewPut(ctx, []byte("t"), []byte("k1"), vals)
+						p2, _ := hrpc.NewPut(ctx, []byte("t"), []byte("k2"), vals)
+						res, ok := c.SendBatch(ctx, []hrpc.Call{p1, p2})
+						if !ok && len(res) > 0 {
+							err = res[0].Error
+						}
+					}
+					done <- err
+				}()
+				early := false
+				select {
+				case <-done:
+					early = true
+				case <-time.After(100 * time.Millisecond):
+				}
+				if early {
+					rep.bad("harness:state-not-reached", "%s: the call returned before its context ended", name)
+				} else {
+					if kind == "cancel" {
+						cancel()
+					}
+					select {
+					case err := <-done:
+						if err == nil || !(errors.Is(err, context.Canceled) || errors.Is(err, context.DeadlineExceeded)) {
+							rep.bad("cancel-wrong-error", "%s: returned %v, want the context's error", name, err)
+						}
+					case <-time.After(3 * time.Second):
+						rep.bad("cancel-ignored:busy-send-queue", "%s: the call is still blocked 3 s after its context ended, while another caller (whose context is live) "+
+							"waits for the same queue in front of it", name)
+					}
+				}
+				rep.Scenarios++
+				rep.Distinct++
+				close(release)
+				time.Sleep(100 * time.Millisecond)
+				c.Close()
+			}()
+		}
+	}
+}
 
 // TestVerifC13Scripts: "all client states reachable by the fault scripts of C04 at the instant of cancellation": the seeded
 // fault scripts of the request-loop driver with every call under one context that is cancelled at a random instant while
